@@ -35,7 +35,11 @@ EXPLANATION = (
     "one quantifier; a for loop over such a pipeline binds its target to the pipeline's element. Lookups may be list.index "
     "(raises), next() searches (None / negative `not found` answer, which must be excluded before it is used as a position), "
     "`in` / .get() tests or a caught KeyError. The token pre-image may be assembled by +, b''.join, %-formatting or by feeding "
-    "a hash object. When a gate can only live behind a call the analysis cannot look into, or a selection / sweep has none of "
+    "a hash object. A search may answer `not found` with None, a negative number, len(<list>) or a marker object (a default of "
+    "dict.get / next that is compared by identity); a (position, entry) pair search is read by component. Positions collected "
+    "from a key's list may be deleted from the end (reversed / sorted(reverse=True) / [::-1] over a snapshot that is still "
+    "current); a memoised token function that receives the Node object, and a groupby reduction per signer over values in "
+    "arrival order, are reported. When a gate can only live behind a call the analysis cannot look into, or a selection / sweep has none of "
     "the recognised structures, the answer is `undecided` (exit 2), not a violation. Interleavings with clock advances are not "
     "explored."
 )
@@ -52,6 +56,21 @@ _OPERATOR_FACTS = {"lt": ast.Lt, "le": ast.LtE, "gt": ast.Gt, "ge": ast.GtE, "eq
 def _canon_fact(f: Fact) -> Fact:
     """a truthy test of operator.ge(a, b) / a.__ge__(b) / operator.not_(x) / operator.contains(c, x) is the fact of the
     comparison it spells (the place of the fact stays the written test)"""
+    one = lambda e: isinstance(e, ast.Set) and len(e.elts) == 1 and not isinstance(e.elts[0], ast.Starred)  # noqa: E731
+    a = f.atom
+    if f.op == "lt" and isinstance(a, ast.Compare) and len(a.ops) == 1:
+        # {x} <= S  /  S >= {x}: x is a member of S (read from the written comparison: sets are only partially ordered)
+        l, op, r = a.left, a.ops[0], a.comparators[0]
+        pol = not f.pos                 # the engine writes `a <= b` as not (b < a) and `a >= b` as not (a < b)
+        new = None
+        if isinstance(op, ast.LtE) and one(l):
+            new = ast.Compare(left=l.elts[0], ops=[ast.In()], comparators=[r])
+        elif isinstance(op, ast.GtE) and one(r):
+            new = ast.Compare(left=r.elts[0], ops=[ast.In()], comparators=[l])
+        if new is not None:
+            g = _engine_fact_of(new, pol)
+            g.atom = f.atom
+            return g
     for _ in range(3):
         c = f.left if f.op == "truthy" and isinstance(f.left, ast.Call) and not f.left.keywords else None
         if c is None:
@@ -285,6 +304,35 @@ def _elem_of(fi: FuncInfo, e: ast.AST | None, cfg=None, site: ast.AST | None = N
     return None
 
 
+def _same_object_expr(fi: FuncInfo, a: ast.AST | None, b: ast.AST | None) -> bool:
+    """both expressions denote the same object whenever the function evaluates them: the same None / True / False / ...,
+    the same name that the function binds at most once (module-level sentinel, parameter, single-assignment local), or
+    the same attribute path below such a name with no store to an attribute of that name in the function"""
+    if a is None or b is None:
+        return False
+    a, b = strip_cast(a), strip_cast(b)
+    if isinstance(a, ast.Constant) and isinstance(b, ast.Constant):
+        return a.value is b.value and (a.value is None or a.value is Ellipsis or isinstance(a.value, bool))
+    if norm(a) != norm(b):
+        return False
+    x, attrs = a, []
+    while isinstance(x, ast.Attribute):
+        attrs.append(x.attr)
+        x = x.value
+    if not isinstance(x, ast.Name):
+        return False
+    defs = _engine_local_defs(fi, x.id)
+    if len(defs) > (0 if x.id in fi.params() else 1):
+        return False
+    if attrs:
+        for n in ast.walk(fi.node):
+            if isinstance(n, ast.Attribute) and isinstance(n.ctx, (ast.Store, ast.Del)) and n.attr in attrs:
+                return False
+            if isinstance(n, ast.Call) and chain(n.func) in ("setattr", "delattr"):
+                return False
+    return True
+
+
 def _truth_fact(f, pred) -> bool:
     """the fact says `X` is present: truthy X, or X is not None (for values that are None or a non-empty object)"""
     if f.op == "truthy" and f.pos and pred(f.left):
@@ -363,6 +411,16 @@ def _followable(h: FuncInfo) -> bool:
     if h.is_async or h.node.args.vararg or h.node.args.kwarg:
         return False
     return not any(isinstance(x, (ast.Yield, ast.YieldFrom)) for x in walk_no_nested(h.node))
+
+
+_MEMO_DECORATORS = ("lru_cache", "cache", "cached", "memoize", "memoized", "memoise", "memoised", "cachedmethod", "alru_cache")
+
+
+def _is_memo_decorator(d: ast.AST) -> bool:
+    """@functools.lru_cache / @lru_cache(maxsize=..) / @functools.cache / @cachetools.cached(..): calls are answered from a table
+    keyed by the (hash / equality of the) arguments"""
+    c = chain(d.func) if isinstance(d, ast.Call) else chain(d)
+    return bool(c) and c.rpartition(".")[2] in _MEMO_DECORATORS
 
 
 def _is_static(h: FuncInfo) -> bool:
@@ -2097,6 +2155,38 @@ def rule_token(ctx: Ctx) -> None:
     ctx.check(ok_g, "token-preimage", gt, gt.node, "token = sha1(str(node) + newest secret)", "generate_token does not bind the token to the requester identity and the newest secret")
     ok_c = _check_token_ok(ctx, ct)
     ctx.check(ok_c, "token-preimage", ct, ct.node, "check_token compares with sha1(str(node) + s) for s in token_secrets", "check_token accepts tokens not derived from the requester identity and a live secret")
+    # the token of a node is computed from str(node) (key AND address) every time: a memoising wrapper around a function that
+    # receives the Node object looks its result up by Node equality, and two Nodes are equal when their public keys are equal
+    # (Peer.__eq__ / __hash__ do not look at the address) - the address would drop out of what the token is bound to
+    peer_cls = repo.try_cls("Peer", "ipv8/peer.py")
+    ident = [peer_cls.lookup(nm) for nm in ("__eq__", "__hash__")] if peer_cls is not None else []
+    by_address = bool(ident) and all(m is not None and any(isinstance(x, ast.Attribute) and x.attr in ("address", "_address") for x in ast.walk(m.node)) for m in ident)
+    memo_seen: set = set()
+
+    def memo_on_node(f: FuncInfo, names: set, depth: int = 0):
+        """(helper, call) for calls in f that hand the Node object `names` to a memoised function (followed through plain helpers)"""
+        out = []
+        for c in ast.walk(f.node):
+            if not isinstance(c, ast.Call) or (id(c), tuple(sorted(names))) in memo_seen:
+                continue
+            memo_seen.add((id(c), tuple(sorted(names))))
+            for h, bound in (_callee_targets(repo, f, c.func) or []):
+                env = _bind_call(h.node.args, c, bound and bool(h.params())) or {}
+                passed = {p_ for p_, a in env.items() if isinstance(resolve(f, a), ast.Name) and resolve(f, a).id in names and not local_defs(f, resolve(f, a).id)}
+                if not passed:
+                    continue
+                if any(_is_memo_decorator(d) for d in h.decorators):
+                    out.append((h, c))
+                elif depth < 3:
+                    out += memo_on_node(h, passed, depth + 1)
+        return out
+
+    for f in (gt, ct):
+        for h, c in memo_on_node(f, {f.params()[1]}):
+            ctx.check(by_address, "token-preimage", f, c, "the token hash is not looked up in a cache keyed by Node equality",
+                      f"{f.qualname} gets the token from `{h.name}`, which is memoised ({', '.join(h.decorator_names())}) and receives the Node object: the cache "
+                      "finds an entry by Node.__hash__ / __eq__, which compare the public key only, so the token computed for the key at one address is "
+                      "returned for the same key at any other address - tokens are bound to the key, no longer to the requester's address")
     # secrets: deque(maxlen=2), appended only in token_maintenance, registered at 300 s
     sec_stores, appends = [], []
     for m, fi, a in repo.attribute_uses("token_secrets"):
@@ -2369,6 +2459,41 @@ def _selects_newest_per_signer(ctx: Ctx, pp: FuncInfo) -> bool:
                 keeps.append((st, strip_cast(t.value).id, vp, selfmax))
     selecting = [n for n in ast.walk(pp.node) if isinstance(n, ast.Call) and (chain(n.func) or "").split(".")[-1] in ("max", "sorted", "sort", "groupby", "reduce", "nlargest")
                  or isinstance(n, ast.Compare) and any(isinstance(o, (ast.Lt, ast.LtE, ast.Gt, ast.GtE)) for o in n.ops)]
+    # itertools.groupby merges ADJACENT items only: a per-signer reduction over its groups sees every signer once only when the input
+    # is sorted by the grouping key.  Over the received values in arrival order (several nodes answer, their values are interleaved)
+    # a signer whose versions are not adjacent forms several groups and is reported once per group - also with a stale version.
+    def arrival_order(e, depth=0):
+        """True: e yields (what is derived from) the received values in the order they arrived; "sorted": a sort is on the way;
+        None: not decided"""
+        e = strip_cast(e) if e is not None else None
+        if e is None or depth > 8:
+            return None
+        if isinstance(e, ast.Name):
+            if any(isinstance(c.func, ast.Attribute) and c.func.attr == "sort" and isinstance(c.func.value, ast.Name) and c.func.value.id == e.id
+                   for c in ast.walk(pp.node) if isinstance(c, ast.Call)):
+                return "sorted"
+            if e.id in pp.params():
+                return True if e.id == pp.params()[1] and not local_defs(pp, e.id) else None
+            d = single_def(pp, e.id)
+            return arrival_order(d[0], depth + 1) if d is not None and d[1] is None else None
+        if isinstance(e, (ast.ListComp, ast.GeneratorExp)) and len(e.generators) == 1:
+            return arrival_order(e.generators[0].iter, depth + 1)
+        if isinstance(e, ast.Call):
+            if _builtin(pp, e.func, ("sorted",)):
+                return "sorted"
+            if (_builtin(pp, e.func, ("map", "filter", "list", "tuple", "iter", "enumerate")) or _lib_name(pp, e.func, "itertools", ("filterfalse",))) \
+                    and e.args and not e.keywords and not any(isinstance(a, ast.Starred) for a in e.args):
+                return arrival_order(e.args[-1], depth + 1)
+        return None
+
+    for c in [n for n in ast.walk(pp.node) if isinstance(n, ast.Call) and _lib_name(pp, n.func, "itertools", ("groupby",))]:
+        if c.args and arrival_order(c.args[0]) is True:
+            ctx.violation("signed-means-verified", pp, c,
+                          f"post_process_values reduces per signer with `{norm(c.func)}` over the received values in arrival order (`{norm(c.args[0])}` is never "
+                          "sorted by the grouping key): groupby starts a new group whenever the key changes, so two versions of one signer's value that are "
+                          "separated by other signers' values end up in different groups and the signer is reported once per group - the lookup also "
+                          "reports a stale version instead of only the highest version it saw")
+            return False
     if not keeps and vpos is None and selecting:
         # something is ordered / compared, but not in one of the two recognised structures
         raise AnalysisError("undecided: how post_process_values selects the entry it reports per signer (neither a per-signer collection "
@@ -2801,9 +2926,44 @@ def _put_version_guard(ctx: Ctx, put: FuncInfo):
         if len(c.args) == 1:
             return "raise"
         sentinel = strip_cast(c.args[1])
+        if isinstance(sentinel, ast.Name) and not _engine_local_defs(fr.fi, sentinel.id) and sentinel.id not in fr.fi.params():
+            folded = ctx.repo.resolve_const(fr.fi.module, sentinel)        # NOT_FOUND = -1 at module level is the number
+            if type(folded) is int:
+                sentinel = ast.Constant(value=folded)
         if _is_none(sentinel) or type(const_value(sentinel)) is int and const_value(sentinel) < 0:
             return sentinel
+        if no_entry_marker(fr, sentinel) or len_marker(fr, sentinel):
+            return sentinel                           # an object that is no position at all / the length: no position of an entry
         return None
+
+    def no_entry_marker(fr: _Frame, e) -> bool:
+        """e denotes an object that is neither a stored entry nor a position: None, a module-level name (put stores only the Value it
+        has just built), or a local `object()`"""
+        e = strip_cast(e) if e is not None else None
+        if e is None:
+            return False
+        if _is_none(e):
+            return True
+        if isinstance(e, ast.Name) and e.id not in fr.fi.params() and not _engine_local_defs(fr.fi, e.id) and not is_new_in(fr, e) \
+                and not hasattr(_builtins, e.id):
+            # a module-level object built by a call (`_MISSING = object()`, an instance of a marker class): not a number, not a Value of a list
+            rn = ctx.repo.resolve_name(fr.fi.module, e.id)
+            v = strip_cast(rn[2]) if isinstance(rn, tuple) and rn[0] == "const" and len(rn) == 3 else None
+            return isinstance(v, ast.Call) and not v.args and not v.keywords and chain(v.func) != "Value"
+        r = resolve(fr.fi, e)
+        return isinstance(r, ast.Call) and chain(r.func) == "object" and not r.args and not r.keywords and isinstance(e, ast.Name)
+
+    def len_marker(fr: _Frame, e) -> bool:
+        """e is len(<list>) in a function that never makes the list longer before it is done with the answer (no append / extend):
+        one past the last position"""
+        if e is None or not _len_of(fr, e, lambda x: is_list_in(fr, x)):
+            return False
+        for x in ast.walk(fr.fi.node):
+            if isinstance(x, ast.Call) and isinstance(x.func, ast.Attribute) and x.func.attr in ("append", "extend", "__iadd__") and is_list_in(fr, x.func.value):
+                return False
+            if isinstance(x, ast.AugAssign) and is_list_in(fr, x.target):
+                return False
+        return True
 
     def lookup_kind(fr: _Frame, c):
         """"raise" / the `not found` constant when c looks up the position of the new value's id in the list, else None"""
@@ -2866,6 +3026,19 @@ def _put_version_guard(ctx: Ctx, put: FuncInfo):
         def is_pos(x):
             k = idx_sentinel(fr, x)
             return k is not None and k != "raise" and type(const_value(k)) is int
+        if f is not None and f.right is not None:
+            # the answer compared with the search's own `not found` marker: len(<list>) (one past the last position) or an object
+            for x, y in ((f.left, f.right), (f.right, f.left)):
+                k = idx_sentinel(fr, x)
+                if k is None or k == "raise" or _is_none(k):
+                    continue
+                if len_marker(fr, k) and len_marker(fr, y):
+                    if f.op == "eq":
+                        return f.pos is missed
+                    if f.op == "lt":
+                        return (f.pos is not missed) if x is f.left else False
+                if f.op == "is" and not isinstance(k, ast.Constant) and no_entry_marker(fr, k) and _same_object_expr(fr.fi, k, y):
+                    return f.pos is missed
         b = _int_bound(f, is_pos)
         if b is None:
             return False
@@ -2891,16 +3064,42 @@ def _put_version_guard(ctx: Ctx, put: FuncInfo):
                 out.append(l)
         return out
 
-    def searched_entry(fr: _Frame, e):
-        """e = next((v for v in <list> if v == new), None): the stored entry with the new value's id, or None"""
+    def searched_entry(fr: _Frame, e, marker: bool = False):
+        """e = next((v for v in <list> if v == new), D): the stored entry with the new value's id, or the `not found` marker D (None, or
+        an object that is no entry); also the entry component of a pair search
+        `i, e = next(((i, v) for i, v in enumerate(<list>) if v == new), (.., D))`.  With marker=True the answer is D (else True)."""
         r = resolve(fr.fi, e)
-        if not (isinstance(r, ast.Call) and chain(r.func) == "next" and len(r.args) == 2 and _is_none(strip_cast(r.args[1]))
-                and isinstance(r.args[0], ast.GeneratorExp) and len(r.args[0].generators) == 1):
+        comp = None
+        if isinstance(strip_cast(e), ast.Name) and not isinstance(r, ast.Call):
+            d = single_def(fr.fi, strip_cast(e).id)
+            if d is not None and d[1] is not None:
+                r, comp = resolve(fr.fi, d[0]), d[1]
+        elif isinstance(r, ast.Subscript) and type(const_value(r.slice)) is int and isinstance(resolve(fr.fi, r.value), ast.Call):
+            r, comp = resolve(fr.fi, r.value), const_value(r.slice)
+        if not (isinstance(r, ast.Call) and _builtin(fr.fi, r.func, ("next",)) and len(r.args) == 2 and not r.keywords):
             return False
-        g = r.args[0].generators[0]
-        return isinstance(g.target, ast.Name) and isinstance(r.args[0].elt, ast.Name) and r.args[0].elt.id == g.target.id and is_list_in(fr, _unwrap_iter(g.iter)) \
-            and len(g.ifs) == 1 and any(same_id_fact(fr, x, g.target, True) for x in _atoms_with_polarity(g.ifs[0], True)) \
-            and len(_atoms_with_polarity(g.ifs[0], True)) == 1
+        gen = r.args[0] if isinstance(r.args[0], ast.GeneratorExp) else _as_genexp(ctx, fr.fi, r.args[0])
+        if gen is None or len(gen.generators) != 1 or gen.generators[0].is_async:
+            return False
+        g, elt, dflt = gen.generators[0], strip_cast(gen.elt), strip_cast(r.args[1])
+        if len(g.ifs) != 1 or len(_atoms_with_polarity(g.ifs[0], True)) != 1:
+            return False
+        it, enum = _strip_enumerate(g.iter) if comp is not None else (_unwrap_iter(g.iter), False)
+        if comp is None:
+            var = g.target if isinstance(g.target, ast.Name) and isinstance(elt, ast.Name) and elt.id == g.target.id else None
+        else:
+            # the element is a tuple display one component of which is the loop's entry variable
+            var = None
+            t = g.target
+            if enum:
+                t = t.elts[1] if isinstance(t, ast.Tuple) and len(t.elts) == 2 else None
+            if isinstance(t, ast.Name) and isinstance(elt, ast.Tuple) and isinstance(dflt, ast.Tuple) and len(elt.elts) == len(dflt.elts) > comp >= 0 \
+                    and isinstance(strip_cast(elt.elts[comp]), ast.Name) and strip_cast(elt.elts[comp]).id == t.id \
+                    and not any(isinstance(x, ast.Starred) for x in [*elt.elts, *dflt.elts]):
+                var, dflt = t, strip_cast(dflt.elts[comp])
+        if var is None or not is_list_in(fr, it) or not same_id_fact(fr, _atoms_with_polarity(g.ifs[0], True)[0], var, True) or not no_entry_marker(fr, dflt):
+            return False
+        return dflt if marker else True
 
     def is_old_in(fr: _Frame, e, facts=None) -> bool:
         """e is the stored entry that has the new value's id"""
@@ -2908,8 +3107,8 @@ def _put_version_guard(ctx: Ctx, put: FuncInfo):
         facts = fr.facts() if facts is None else facts
         if isinstance(r, ast.Subscript) and is_list_in(fr, r.value) and is_idx(fr, r.slice):
             k = idx_sentinel(fr, r.slice)
-            if k == "raise" or _is_none(k):
-                return True                        # a failed lookup raised / answered None, which is no subscript
+            if k == "raise" or _is_none(k) or not isinstance(k, ast.Constant) and (no_entry_marker(fr, k) or len_marker(fr, k)):
+                return True                        # a failed lookup raised / answered None, an object or len(<list>), which is no subscript (raises)
             # a negative `not found` answer is a subscript as well (another entry): the search must be known to have hit
             return any(miss_fact(fr, f, False) for f in facts)
         if searched_entry(fr, e):
@@ -2963,9 +3162,15 @@ def _put_version_guard(ctx: Ctx, put: FuncInfo):
             return False
         if f.op == "is" and f.pos and _is_none(f.right):
             l = strip_cast(f.left)
-            if isinstance(l, ast.Name) and fr.text(l, follow=False) in idx_names or searched_entry(fr, l) or is_lookup_helper_result(fr, l):
+            if isinstance(l, ast.Name) and fr.text(l, follow=False) in idx_names and (idx_kind.get(fr.text(l, follow=False)) == "raise" or _is_none(idx_kind.get(fr.text(l, follow=False)))) \
+                    or _is_none(searched_entry(fr, l, True) or 0) or is_lookup_helper_result(fr, l):
                 return True
             return _is_none(idx_sentinel(fr, l))
+        if f.op == "is" and f.pos and f.right is not None:
+            for x, y in ((f.left, f.right), (f.right, f.left)):
+                d = searched_entry(fr, x, True)
+                if d is not False and not isinstance(d, bool) and not _is_none(d) and _same_object_expr(fr.fi, d, y):
+                    return True                        # the search answered its own `not found` object
         if miss_fact(fr, f, True):
             return True
         return f.op == "in" and not f.pos and is_new_in(fr, f.left) and is_list_in(fr, f.right)
@@ -3410,25 +3615,67 @@ def rule_storage(ctx: Ctx) -> None:
             early_use = cfgc.reach([v for sn in stepn for v, lab in sn.succ if lab != "exc"], cut_nodes=heads)
         return not any(u in early_use for u in users)
     # ---- a for loop that shrinks the very list it walks over: positions shift under the iterator
+    snap_defs: list = []
+
     def _order(it: ast.AST, depth: int = 0):
         """how a for loop's iterable walks the key's list: ("asc"|"desc", live?, what) with what in ("index", "pair", "value"), or None when it is
-        not derived from the list / not read.  live = the iterable consults the list while the loop runs."""
+        not derived from the list / not read.  live = the iterable consults the list while the loop runs.  Positions ("index", and the
+        first component of a "pair") are distinct and strictly monotone in the stated direction.  A snapshot held in a local is noted in
+        snap_defs (the list must not change between the snapshot and the loop that uses it)."""
+        flip = lambda d: "desc" if d == "asc" else "asc"  # noqa: E731
         e = strip_cast(it)
-        if isinstance(e, ast.Name) and depth < 3 and e.id not in cl.params() and not is_vals(e):
+        if depth > 6:
+            return None
+        if isinstance(e, ast.Name) and e.id not in cl.params() and not is_vals(e):
             d = single_def(cl, e.id)
             if d is not None and d[1] is None:
                 r = _order(d[0], depth + 1)
-                return None if r is None else (r[0], False if isinstance(strip_cast(d[0]), (ast.Call, ast.ListComp)) and not r[1] else r[1], r[2])
+                if r is not None:
+                    snap_defs.append(next(st for st, _v, _i in local_defs(cl, e.id)))
+                return r
             return None
         if is_vals(e):
             return ("asc", True, "value")
-        if isinstance(e, ast.Subscript) and isinstance(e.slice, ast.Slice) and e.slice.lower is None and e.slice.upper is None and is_vals(e.value):
+        if isinstance(e, ast.Subscript) and isinstance(e.slice, ast.Slice) and e.slice.lower is None and e.slice.upper is None:
+            # a full slice copies: <list>[:] / <list>[::-1], also of a collected list of positions
+            r = ("asc", True, "value") if is_vals(e.value) else _order(e.value, depth + 1)
+            if r is None:
+                return None
             if e.slice.step is None:
-                return ("asc", False, "value")
+                return (r[0], False, r[2])
             if const_value(e.slice.step) == -1:
-                return ("desc", False, "value")
+                return (flip(r[0]), False, r[2])
             return None
-        if not isinstance(e, ast.Call) or not isinstance(e.func, ast.Name) or e.keywords and e.func.id != "sorted":
+        if isinstance(e, (ast.ListComp, ast.GeneratorExp)) and len(e.generators) == 1 and not e.generators[0].is_async:
+            # [<position / element> for .. in <walk> if ..]: the walk's order, filtered; a list is a snapshot, a generator expression
+            # is evaluated while the loop runs (it is as live as what it walks over)
+            g = e.generators[0]
+            r = _order(g.iter, depth + 1)
+            if r is None:
+                return None
+            t, elt = g.target, strip_cast(e.elt)
+            what = None
+            if isinstance(t, ast.Name):
+                if isinstance(elt, ast.Name) and elt.id == t.id:
+                    what = r[2]
+                elif r[2] == "pair" and isinstance(elt, ast.Subscript) and isinstance(elt.value, ast.Name) and elt.value.id == t.id \
+                        and type(const_value(elt.slice)) is int and const_value(elt.slice) in (0, 1):
+                    what = ("index", "value")[const_value(elt.slice)]
+            elif isinstance(t, (ast.Tuple, ast.List)) and r[2] == "pair" and len(t.elts) == 2 and all(isinstance(x, ast.Name) for x in t.elts) \
+                    and t.elts[0].id != t.elts[1].id:
+                if isinstance(elt, ast.Name) and elt.id in (t.elts[0].id, t.elts[1].id):
+                    what = "index" if elt.id == t.elts[0].id else "value"
+                elif isinstance(elt, ast.Tuple) and [norm(x) for x in elt.elts] == [t.elts[0].id, t.elts[1].id]:
+                    what = "pair"
+            if what is None:
+                return None
+            return (r[0], r[1] if isinstance(e, ast.GeneratorExp) else False, what)
+        if not isinstance(e, ast.Call):
+            return None
+        if _builtin(cl, e.func, ("filter",)) or _lib_name(cl, e.func, "itertools", ("filterfalse",)):
+            # the same walk with elements left out; evaluated while the loop runs
+            return _order(e.args[1], depth + 1) if len(e.args) == 2 and not e.keywords else None
+        if not isinstance(e.func, ast.Name) or e.func.id in cl.params() or local_defs(cl, e.func.id) or e.keywords and e.func.id != "sorted":
             return None
         f, a = e.func.id, e.args
         if f in ("list", "tuple") and len(a) == 1:
@@ -3439,7 +3686,14 @@ def rule_storage(ctx: Ctx) -> None:
         if f == "reversed" and len(a) == 1:
             r = _order(a[0], depth + 1)
             # reversed(<list>) reads the live list by position from the end; reversed(<snapshot>) is a snapshot
-            return None if r is None else ("desc" if r[0] == "asc" else "asc", r[1], r[2])
+            return None if r is None else (flip(r[0]), r[1], r[2])
+        if f == "sorted" and len(a) == 1:
+            # positions (and (position, value) pairs: the positions are distinct, so the values are never compared) sort numerically
+            r = _order(a[0], depth + 1)
+            kw = {k.arg: k.value for k in e.keywords}
+            if r is None or r[2] not in ("index", "pair") or set(kw) - {"reverse"} or "reverse" in kw and type(const_value(kw["reverse"])) is not bool:
+                return None
+            return ("desc" if "reverse" in kw and const_value(kw["reverse"]) else "asc", False, r[2])
         if f == "enumerate" and len(a) == 1:
             r = _order(a[0], depth + 1)
             return None if r is None or r[2] != "value" or r[0] != "asc" else ("asc", r[1], "pair")
@@ -3454,6 +3708,26 @@ def rule_storage(ctx: Ctx) -> None:
             return None
         return None
 
+    _READS = ("len", "enumerate", "reversed", "list", "tuple", "sorted", "iter", "any", "all", "sum", "min", "max", "range", "zip", "map", "filter", "bool", "isinstance")
+
+    def may_change_list(node: ast.AST) -> bool:
+        """the statement / test can change a key's list (or which list the names denote): a mutating method on it, a store or delete through
+        it, a store to self.items, a call that receives it or any method of the storage itself"""
+        for x in walk_no_nested(node):
+            if isinstance(x, ast.Call):
+                c = chain(x.func) or ""
+                if isinstance(x.func, ast.Attribute) and is_vals(x.func.value) and x.func.attr not in ("index", "count", "copy", "__len__", "__getitem__", "__iter__", "__contains__"):
+                    return True
+                if c.startswith("self.") and not c.startswith("self.items.") or c.startswith("self.items.") and c.rpartition(".")[2] not in ("values", "items", "keys", "get"):
+                    return True
+                if any(is_vals(y) for y in [*x.args, *[k.value for k in x.keywords]]) and not (isinstance(x.func, ast.Name) and x.func.id in _READS):
+                    return True
+            if isinstance(x, (ast.Subscript, ast.Attribute, ast.Name)) and isinstance(x.ctx, (ast.Store, ast.Del)):
+                base = x.value if isinstance(x, (ast.Subscript, ast.Attribute)) else x
+                if is_vals(base) or is_vals(x) or (chain(base) or "").startswith("self.items") or isinstance(x, ast.Name) and (x.id in list_names or x.id in key_names):
+                    return True
+        return False
+
     for l in inner:
         shrink = []
         for x in ast.walk(l):
@@ -3463,10 +3737,26 @@ def rule_storage(ctx: Ctx) -> None:
                 shrink.append(x)
         if not shrink:
             continue
+        del snap_defs[:]
         o = _order(l.iter)
         if o is None:
             raise AnalysisError("undecided: Storage.clean removes entries from a key's list inside a for loop over something derived from that list in a way "
                                 "that is not decided (do the positions still to come shift?)")
+        # positions collected into a local beforehand describe the list only as long as it has not changed since: every path to the loop
+        # takes the snapshot, and nothing between the snapshot and the loop touches the list
+        itn = [n for n in cfgc.nodes if n.kind == "stmt" and n.ast is l.iter] or cfgc.nodes_for(l)
+        for d in snap_defs:
+            dn = cfgc.nodes_for(d)
+            between = cfgc.reach([v for n in dn for v, lab in n.succ if lab != "exc"], cut_nodes=[*dn, *itn]) if dn and itn else None
+            stale = between is None or any(n in cfgc.reach(cut_nodes=dn) for n in itn)
+            for n in (between or ()):
+                if n.kind not in ("stmt", "cond") or n.ast is None:
+                    continue
+                parts = [i.context_expr for i in n.ast.items] if isinstance(n.ast, (ast.With, ast.AsyncWith)) else [n.ast]
+                stale = stale or any(may_change_list(x) for x in parts)
+            if stale:
+                raise AnalysisError(f"undecided: Storage.clean deletes at positions it collected earlier (`{head(d)}`), and whether the list is still "
+                                    "the same when they are used is not decided")
         direction, live, what = o
         by_value = all(isinstance(x, ast.Call) and x.func.attr == "remove" for x in shrink)
         tnames = {n.id for n in ast.walk(l.target) if isinstance(n, ast.Name)}
@@ -3501,13 +3791,29 @@ def rule_storage(ctx: Ctx) -> None:
               "so an expired value behind a longer-lived one survives maintenance")
     pops = [c for c in calls(cl) if call_name(c) in ("pop", "remove", "clear", "popitem", "__delitem__")]
     pops += [d for d in walk_no_nested(cl.node) if isinstance(d, ast.Delete)]
+    def same_elements(e):
+        """the iterable without what only reorders / copies it: sorted(X, ..), reversed(X), list(X), X[::-1], X[:], through locals"""
+        for _ in range(8):
+            e = strip_cast(e)
+            if isinstance(e, ast.Subscript) and isinstance(e.slice, ast.Slice) and e.slice.lower is None and e.slice.upper is None:
+                e = e.value
+            elif isinstance(e, ast.Call) and isinstance(e.func, ast.Name) and e.func.id in ("sorted", "reversed", "list", "tuple", "iter") and len(e.args) == 1 \
+                    and (not e.keywords or e.func.id == "sorted") and not local_defs(cl, e.func.id):
+                e = e.args[0]
+            elif isinstance(e, ast.Name) and not is_vals(e) and single_def(cl, e.id) is not None and single_def(cl, e.id)[1] is None:
+                e = single_def(cl, e.id)[0]
+            else:
+                break
+        return e
+
     def facts_for(p):
         """dominating facts, plus the filter of a generator helper the enclosing loop runs over:
         `for i in self._expired_positions(values)` with `for i in ..: if values[i].expired: yield i`"""
         fs = list(facts_at(cfgc, p))
         for l in ancestors(p):
             if isinstance(l, ast.For):
-                inner = _as_genexp(ctx, cl, l.iter)       # a generator helper, or a collected list `[v for v in values if v.expired]`
+                # a generator helper, or a collected list `[v for v in values if v.expired]` - also walked in another order
+                inner = _as_genexp(ctx, cl, same_elements(l.iter))
                 if inner is not None and len(inner.generators) == 1:
                     fs += [f for t in inner.generators[0].ifs for f in _atoms_with_polarity(t, True)]
         return fs
@@ -3667,6 +3973,14 @@ def rule_requester_address(ctx: Ctx) -> None:
                 return norm(_unwrap_iter(f.right)) in ("self.nodes", "self.nodes.keys()")
             if found_in_table(f) is not None:
                 return True
+            if f.op == "is" and not f.pos and f.right is not None:
+                # self.nodes.get(<incoming>.id, D) is not D: the lookup did not fall back to its default, so the id is a key
+                # (holds for every D that denotes the same object in both places; nothing is assumed about what D is)
+                for x, y in ((f.left, f.right), (f.right, f.left)):
+                    r = resolve(fi, x)
+                    if isinstance(r, ast.Call) and chain(r.func) == "self.nodes.get" and len(r.args) == 2 and not r.keywords and inc_id(r.args[0]) \
+                            and _same_object_expr(fi, r.args[1], y):
+                        return True
             return _truth_fact(f, lambda e: isinstance(resolve(fi, e), ast.Call) and is_entry(e))
 
         def known_by_helper(u, lab) -> bool:
@@ -4192,6 +4506,22 @@ WITNESSES = [
                {"file": DC, "old": "    def token_maintenance(self) -> None:",
                 "new": "    def _token_verdict(self, node: Node, payload: StoreRequestPayload) -> str:\n        for _ in range(1):\n            if not self.check_token(node, payload.token):\n"
                        "                return \"BAD_TOKEN\"\n        return \"OK\"\n\n    def token_maintenance(self) -> None:"}]},
+    {"name": "token hash memoised on the Node object (cache key ignores the address)", "rule": "token-preimage",
+     "edits": [{"file": DC, "old": "        return hashlib.sha1(str(node).encode() + self.token_secrets[-1]).digest()\n",
+                "new": "        return _token_for(node, self.token_secrets[-1])\n"},
+               {"file": DC, "old": "        return any(hashlib.sha1(str(node).encode() + secret).digest() == token for secret in self.token_secrets)",
+                "new": "        return any(_token_for(node, secret) == token for secret in self.token_secrets)"},
+               {"file": DC, "old": "def merge_results(",
+                "new": "@functools.lru_cache(maxsize=512)\ndef _token_for(node: Node, secret: bytes) -> bytes:\n"
+                       "    return hashlib.sha1(str(node).encode() + secret).digest()\n\n\ndef merge_results("}]},
+    {"name": "per-signer reduction with groupby over the values in arrival order", "rule": "signed-means-verified",
+     "edits": [{"file": DC, "old": "from itertools import zip_longest\n", "new": "from itertools import groupby, zip_longest\n"},
+               {"file": DC, "old": "        for public_key, data_list in unpacked.items():\n            if public_key is not None:\n"
+                                   "                results.append((max(data_list, key=lambda t: t[0])[1], public_key))\n",
+                "new": "        signed = [(k, v, d) for k, entries in unpacked.items() if k is not None for v, d in entries]\n"
+                       "        arrived = [t for t in map(self.unserialize_value, values) if t and t[1] is not None]\n"
+                       "        for public_key, group in groupby(arrived, key=lambda t: t[1]):\n"
+                       "            results.append((max(group, key=lambda t: t[2])[0], public_key))\n"}]},
     {"name": "store-peer without token", "file": DD, "rule": "store-peer-mid",
      "old": "        if not self.check_token(node, payload.token):\n            self.logger.warning(\"Bad token, dropping packet.\")\n            return\n        if payload.target != peer.mid:",
      "new": "        if payload.target != peer.mid:"},
